@@ -47,6 +47,7 @@ func randCase(c *Ctx, s string) string {
 // start characters ("identifiers may start with any configured letter, Latin or not"); two separate
 // registrations over the built-in 0..0xffff symbol range, so the latest-registration rule matters
 var c13CfgOps = []cfgOp{{k: "D", lo: 0x400, hi: 0x4ff, x: "w"}, {k: "D", lo: 0x370, hi: 0x3ff, x: "w"}}
+var c13SymOps = []cfgOp{{k: "Y", v: []rune("=:="), typ: tokenizers.Symbol}, {k: "Y", v: []rune("..."), typ: tokenizers.Symbol}}
 var wordStartCfg = []rune("abzAZxy_éÀÿЖцλΔ")
 
 func genLexeme(c *Ctx, kind string) lexeme {
@@ -231,6 +232,11 @@ func runLexCase(c *Ctx, kind string, lexs []lexeme) {
 	if kind == "E" {
 		op = tokcLine("e", 0, c13CfgOps, input)
 		ts, st = tokenizeCfg("e", 0, c13CfgOps, input)
+	} else if kind == "Y" || kind == "Z" {
+		// a user-registered three-character symbol whose two-character prefix is not a symbol
+		k := map[string]string{"Y": "e", "Z": "g"}[kind]
+		op = tokcLine(k, 0, c13SymOps, input)
+		ts, st = tokenizeCfg(k, 0, c13SymOps, input)
 	} else {
 		ts, st = tokenizeImpl(kind, 0, string(input))
 	}
@@ -301,6 +307,26 @@ func propC13(c *Ctx) {
 			lexs = append(lexs, l)
 		}
 		runLexCase(c, kind, lexs)
+	}
+	// configured letters next to characters of the ranges they were carved out of, in both orders
+	W, S, Sp := tokenizers.Word, tokenizers.Symbol, tokenizers.Whitespace
+	for _, sym := range []string{"世", "→", "≠", "€", "Ѐ", "Ϳ"} {
+		for _, let := range []string{"Ж", "ц", "λ", "Δ"} {
+			if sym == "Ѐ" || sym == "Ϳ" { // these two lie INSIDE the configured ranges: they are letters too
+				runLexCase(c, "E", []lexeme{{sym + "a", W}, {" ", Sp}, {let, W}})
+				continue
+			}
+			runLexCase(c, "E", []lexeme{{sym, S}, {" ", Sp}, {let + "x1", W}})
+			runLexCase(c, "E", []lexeme{{let, W}, {" ", Sp}, {sym, S}, {" ", Sp}, {let + let, W}, {" ", Sp}, {sym, S}})
+			runLexCase(c, "E", []lexeme{{sym, S}, {let, W}, {" ", Sp}, {sym, S}, {let + "_", W}})
+		}
+	}
+	for _, k := range []string{"Y", "Z"} {
+		runLexCase(c, k, []lexeme{{"a", W}, {" ", Sp}, {"=:=", S}, {" ", Sp}, {"b", W}})
+		runLexCase(c, k, []lexeme{{"a", W}, {" ", Sp}, {"=", S}, {":", S}})
+		runLexCase(c, k, []lexeme{{"a", W}, {"=", S}, {":", S}, {" ", Sp}, {"b", W}})
+		runLexCase(c, k, []lexeme{{"=", S}, {":", S}})
+		runLexCase(c, k, []lexeme{{"=:=", S}, {"=", S}, {":", S}})
 	}
 	c.Notes = append(c.Notes, "random lexeme sequences (1..10 lexemes; thorough also 50..250) from the lexical grammar of the generic and the expression tokenizer: identifiers (Latin-1 and non-Latin), keywords in random case, integers, decimals (1.5 .5 1.), scientific numbers, quoted strings with doubled quotes / other quote / newlines / non-ASCII, comments, whitespace runs, every multi-character symbol, single-character symbols; neighbours are separated by whitespace unless a conservative `cannot merge` predicate allows direct adjacency")
 }
